@@ -6,6 +6,34 @@ harness harness/dyn_h.c.  Element kinds are a case split (-DVERIF_KIND), struct 
 """
 import os
 
+META = {
+    "level": "proof",
+    "trusted_base": [
+        "contracts/dyn_contracts.h, contracts/list_contracts.h (DYN_WF / LIST_WF and the per-operation contracts; element sizes DYN_ESZ_OF written from the API types)",
+        "memmove/memcpy CONTRACTS in contracts/dyn_contracts.h (C11 7.24.2 byte for byte with one ghost byte) replace CBMC's built-in models in remove_at, push_struct, set_struct, pop_struct, list_int_remove/insert: ASSUMED, not checked against the models (symbolic-length array copies do not bit-blast; an SMT lemma did not terminate either).  push/reserve/clone use CBMC's built-in realloc/memcpy models",
+        "gc_alloc / gc_release contracts (fresh object of the requested size or NULL; release touches nothing visible): ASSUMED, src/runtime/gc.c is not part of this unit",
+        "assert()/abort()/exit() end the run (harness bodies set __verif_dyn and assume false)",
+        "fprintf by contracts/libc_stubs.h",
+    ],
+    "assumptions": [
+        "allocation succeeds (--no-malloc-may-fail for cbmc AND goto-instrument): the realloc-failure paths of dyn_array_grow / dyn_array_reserve (print a message, return, then the caller writes data[length] out of bounds) and the malloc-failure paths are NOT checked (DESIGN 3.3 lists them as an unchecked assumption)",
+        "capacity <= 2^40 on entry of every dyn_array operation and capacity <= 2^39 when a push must grow (so that capacity*elem_size and capacity*2 stay inside int64); dyn_array_new_with_capacity / dyn_array_reserve: requested capacity <= 2^40 (larger requests overflow capacity*elem_size: not claimed safe); List_int: capacity <= 2^28",
+        "DYN_WF as precondition uses exactly-sized fresh objects for header and store; as postcondition it states rw_ok + offset 0 + exact object size + store separate from header (what the next operation's precondition needs); capacity >= 1 (the code only ever produces >= 8)",
+        "element kinds: X over the 8 ElementType values; an elem_type outside the enum is not considered",
+        "struct arrays (ELEM_STRUCT): the element size is a CONSTANT per query and only the sizes named in the B(...) labels are run; remove_at only for power-of-two sizes.  A symbolic elem_size, and remove_at for other sizes, time out on every back end (multiplication monotonicity / distributivity).  push_struct: struct_size in [1, 2^20]; struct_size 0 is excluded",
+        "ghost indices __verif_k (element) and __verif_kb (byte offset) are unconstrained extern objects: a postcondition over them reads 'for every index'",
+        "pop_* / get_struct / set_struct / pop_struct: the C20 view is the code's total behaviour (empty or out of range => no change, NULL/0/false); what C08 demands of them is obligations/c08_native.py",
+        "CBMC's nondet _Bool is canonicalised to 0/1 in the harness (a C bool object holds only 0 or 1)",
+    ],
+    "not_reached": [
+        "dyn_array_insert_* (declared in dyn_array.h, defined nowhere), dyn_array_free / slice (do not exist)",
+        "dyn_array_push_string_copy (strdup model loops over the string)",
+        "list_int_insert: UNDECIDED (no answer in 20 min); list_string.c and the other generated list_*.c files not started",
+        "gc.c histories (C20.gc.hist), generated-code templates (C20.tmpl.ub): other units",
+    ],
+    "undecided_part": "operation HISTORIES are covered only through inductiveness: every operation preserves DYN_WF/LIST_WF and updates the abstract sequence as specified, so any finite series does; the induction step post(op) => pre(next op) is by inspection of the two macro texts (DYN_WF_POST vs DYN_WF_PRE), not machine-checked.  Struct arrays only for the listed element sizes.",
+}
+
 HARNESS = "harness/dyn_h.c"
 DYN_SRC = ["src/runtime/dyn_array.c"]
 KINDS = {1: "int", 8: "u8", 2: "float", 3: "string", 4: "bool", 5: "array", 6: "struct", 7: "pointer"}
@@ -167,7 +195,10 @@ def list_int(prop, pfx, only=None):
                         enforce=fn, replace=["memmove"] if mm else [], loops=True, gi_flags=GI, unwind="auto",
                         strength="X" if op.startswith("insert") else "U",
                         functions=[fn] + (["ensure_capacity"] if grows else []), must_have=must, min_checks=10, timeout=240,
-                        weight=4 if (grows or mm) else 1, witness={"replayer": "dyn"}))
+                        weight=4 if (grows or mm) else 1, witness={"replayer": "dyn"},
+                        # insert: not reached - the query does not get past CBMC's propositional reduction in 20 min
+                        # (memmove contract havoc + a further symbolic write); kept in the thorough tier as undecided
+                        tier="thorough" if op.startswith("insert") else "quick"))
     return obs
 
 
